@@ -240,6 +240,14 @@ pub fn minimise(r: &Replay, tmpdir: &str, budget_s: f64) -> Replay {
             best = cand;
         }
     }
+    // 3b. no environment variables
+    if !best.plan.env.is_empty() {
+        let mut cand = best.clone();
+        cand.plan.env.clear();
+        if m.ok(&cand) {
+            best = cand;
+        }
+    }
     // 4. zero the clock script
     if !best.plan.clock.is_empty() {
         let mut cand = best.clone();
